@@ -128,9 +128,38 @@ def forbidden_scan():
                 continue
             p = os.path.join(root, fn)
             depth = 0
-            for i, l in enumerate(open(p), 1):
-                code = re.sub(r"\(\*.*?\*\)", "", l)
-                code = re.sub(r'"(?:[^"]|"")*"', '""', code)     # string literals are data
+            text = open(p).read()
+            # blank out comments (possibly multi-line / nested) and string literals, keeping line structure
+            out = []
+            i = 0
+            level = 0
+            instr = False
+            while i < len(text):
+                ch = text[i]
+                if level == 0 and not instr and ch == '"':
+                    instr = True
+                    out.append(" ")
+                elif instr:
+                    if ch == '"':
+                        if text[i + 1:i + 2] == '"':
+                            i += 1
+                        else:
+                            instr = False
+                    out.append("\n" if ch == "\n" else " ")
+                elif text.startswith("(*", i):
+                    level += 1
+                    out.append("  ")
+                    i += 1
+                elif level > 0 and text.startswith("*)", i):
+                    level -= 1
+                    out.append("  ")
+                    i += 1
+                elif level > 0:
+                    out.append("\n" if ch == "\n" else " ")
+                else:
+                    out.append(ch)
+                i += 1
+            for i, code in enumerate("".join(out).split("\n"), 1):
                 if re.match(r"\s*Section\b", code):
                     depth += 1
                 if re.match(r"\s*End\b", code) and depth > 0:
